@@ -244,6 +244,17 @@ pub fn apply(doc: &mut Vec<u8>, f: RestFault, rng: &mut Rng, other: &[u8]) -> bo
             let v = if rng.chance(1, 2) { mag } else { -mag };
             let mut enc = String::new();
             crate::zoo::vlq(&mut enc, v);
+            if rng.chance(1, 4) {
+                // repeated: two one-field segments with the same huge value in front, so that the
+                // generated-column running sum takes several same-sign steps on one line
+                let huge = if rng.chance(1, 2) { 1i64 << 62 } else { -(1i64 << 62) };
+                let mut h = String::new();
+                crate::zoo::vlq(&mut h, huge);
+                // only at the start of a segment (otherwise the field structure breaks)
+                if s0 == r.0 || doc[s0 - 1] == b',' || doc[s0 - 1] == b';' {
+                    enc = format!("{h},{h},{h},{enc}");
+                }
+            }
             doc.splice(s0..e0, enc.bytes());
         }
         RestFault::B64Subst => {
